@@ -6,6 +6,8 @@ package ir
 
 import (
 	"sync/atomic"
+
+	"honnef.co/go/tools/internal/verifhook"
 )
 
 // Each task has two states: it is initially "active",
@@ -60,6 +62,7 @@ func (x *task) wait() {
 	if x.isTransitivelyDone() {
 		return // already known to be done. Skip allocations.
 	}
+	verifhook.Point("ir.task.wait")
 
 	// Use BFS to wait on u.done to be closed, for all u transitively
 	// reachable from x via edges.
